@@ -124,14 +124,14 @@ pub fn run(ctx: &Ctx) -> i32 {
         verdict: &dech::verdict_c09,
         encs: e,
         modes: vec![BomMode::None, BomMode::Sniff],
-        sinks: vec![Sink::Utf8, Sink::Utf16],
+        sinks: vec![Sink::Utf8, Sink::Utf16, Sink::Str, Sink::String],
         repls: vec![true],
         cap_patterns: &|s| hist::cap_patterns(s, false),
         core_max_len: ctx.tier.pick(6, 8),
         triples: ctx.tier == fw::Tier::Thorough,
         bom_prefixes: true,
         random_per_enc: ctx.n(3_000, 100_000),
-        profile: Profile { max_tokens: ctx.tier.pick(10, 40), small_caps_weight: 128, queries: false, exact_queries: false, modes: &hist::ALL_MODES, sinks: &[Sink::Utf8, Sink::Utf16], bom_prefix_weight: 48 },
+        profile: Profile { max_tokens: ctx.tier.pick(10, 40), small_caps_weight: 128, queries: false, exact_queries: false, modes: &hist::ALL_MODES, sinks: &hist::ALL_SINKS, bom_prefix_weight: 48 },
         fills: vec![0xA5],
         mixed_sinks: false,
     };
@@ -141,7 +141,7 @@ pub fn run(ctx: &Ctx) -> i32 {
             verdict: &ench::verdict_c09,
             encs: ench::encoder_encodings(),
             srcs: vec![Src::Utf8, Src::Utf16],
-            sinks: vec![ESink::Slice],
+            sinks: vec![ESink::Slice, ESink::Vec],
             repls: vec![true],
             cap_patterns: &|r| hist_enc::cap_patterns(r, false),
             core_max_chars: ctx.tier.pick(2, 3),
